@@ -294,5 +294,5 @@ def gen(ch, tier):
 
 def plan(tier):
     if tier == "quick":
-        return {"streams": {"main": 6000}, "shards": 16}
+        return {"streams": {"main": 10000}, "shards": 16}
     return {"streams": {"main": 120000}, "shards": 16}
